@@ -30,6 +30,7 @@ func Mk2() string               { return "" }
 func Mk3() string               { return "" }
 func Mk4() string               { return "" }
 func Probe(id int, x any)       {}
+func Mark[X any](k int, x X) X  { return x }
 func Enter(name string)         {}
 func Leave()                    {}
 func GoBegin()                  {}
@@ -92,7 +93,75 @@ func Sink5(x any)               { record("5", x) }
 func Sink6(x any)               { record("6", x) }
 func Sink7(x any)               { record("7", x) }
 func Sink8(x any)               { record("8", x) }
-func Probe(id int, x any)       {}
+// C11: Mark(k, x) is the identity on a freshly allocated object and remembers its allocation id; Probe(id, v)
+// records the run-time identity of a pointer-like value. Objects are kept alive for the whole execution.
+type probeRec struct {
+	id   int
+	typ  string
+	addr uintptr
+}
+
+var (
+	probes   []probeRec
+	allocOf  = map[uintptr]int{}
+	keep     []any
+	aliasSet = map[string]bool{}
+)
+
+func identity(v reflect.Value) (uintptr, bool) {
+	switch v.Kind() {
+	case reflect.Pointer, reflect.Map, reflect.Chan, reflect.Func, reflect.UnsafePointer:
+		if v.IsNil() {
+			return 0, false
+		}
+		return v.Pointer(), true
+	case reflect.Slice:
+		if v.IsNil() || v.Cap() == 0 {
+			return 0, false
+		}
+		// the END of the backing array is invariant under re-slicing
+		return v.Pointer() + uintptr(v.Cap())*v.Type().Elem().Size(), true
+	}
+	return 0, false
+}
+
+func Mark[X any](k int, x X) X {
+	keep = append(keep, x)
+	if a, ok := identity(reflect.ValueOf(x)); ok {
+		allocOf[a] = k
+	}
+	return x
+}
+
+func Probe(id int, x any) {
+	keep = append(keep, x)
+	v := reflect.ValueOf(x)
+	if !v.IsValid() {
+		return
+	}
+	if a, ok := identity(v); ok {
+		probes = append(probes, probeRec{id, v.Type().String(), a})
+	}
+}
+
+func flushProbes() {
+	for i, p := range probes {
+		if k, ok := allocOf[p.addr]; ok {
+			aliasSet[fmt.Sprintf("%d@%d", p.id, k)] = true
+		}
+		for _, q := range probes[i+1:] {
+			if p.addr == q.addr && p.typ == q.typ && p.id != q.id {
+				a, b := p.id, q.id
+				if b < a {
+					a, b = b, a
+				}
+				aliasSet[fmt.Sprintf("%d=%d", a, b)] = true
+			}
+		}
+	}
+	probes, keep = nil, nil
+	allocOf = map[uintptr]int{}
+}
 
 // call-event recording for the dispatch family (C12/C18): every function starts with Enter(id); defer Leave().
 var (
@@ -252,6 +321,7 @@ type Result struct {
 	Branches int
 	Panics   int
 	Capped   bool
+	Alias    []string // C11: "i=j" probes i and j saw the same object in one execution; "i@k" probe i saw the object allocated at Mark k
 	Events   []string // C12/C18: "caller>callee" ids
 	Logs     []string // C16: distinct deferred-run logs ("3,1" = D(3) ran first), "!p" suffix when the run panicked
 }
@@ -297,6 +367,7 @@ func runOnce1(e Entry, prefix []bool) (n int, panicked bool) {
 			panicked = true
 		}
 		n = pos
+		flushProbes()
 		l := strings.Join(dlog, ",")
 		if panicked {
 			l += "!p"
@@ -312,6 +383,7 @@ func Explore(e Entry) Result {
 	flows = map[string]bool{}
 	logs = map[string]bool{}
 	events = map[string]bool{}
+	aliasSet = map[string]bool{}
 	res := Result{Name: e.Name}
 	var rec func(prefix []bool)
 	rec = func(prefix []bool) {
@@ -341,6 +413,10 @@ func Explore(e Entry) Result {
 		res.Events = append(res.Events, ev)
 	}
 	sort.Strings(res.Events)
+	for a := range aliasSet {
+		res.Alias = append(res.Alias, a)
+	}
+	sort.Strings(res.Alias)
 	if WantLogs {
 		for l := range logs {
 			res.Logs = append(res.Logs, l)
